@@ -38,12 +38,13 @@ def integral_data(ir: FormIR) -> IntegralData:
     for itg_type in ("cell", "exterior_facet", "interior_facet", "vertex", "ridge"):
         _ids = ir.subdomain_ids[itg_type]
         id_sort = np.argsort(_ids)
+        num_integrals = len(domains)
 
         ids += [_ids[i] for i in id_sort]
         names += [ir.integral_names[itg_type][i] for i in id_sort]
         domains += [ir.integral_domains[itg_type][i] for i in id_sort]
 
-        offsets.append(offsets[-1] + sum(len(d) for d in domains[offsets[-1] :]))
+        offsets.append(offsets[-1] + sum(len(d) for d in domains[num_integrals:]))
 
     return IntegralData(names, ids, offsets, domains)
 
